@@ -1,67 +1,72 @@
 /-
   C01 — a 'valid' verdict is sound in every logic.
 
-  FULL STATEMENT (planned, DESIGN §6 C01): for every logic `L` of the package, every argument,
-  and every tableau `t` reachable from the trunk by ANY finite sequence of legal rule
-  applications (so: every optimisation option, every tie-break order, build() or step() loop,
-  every premise order), if all branches of `t` are closed then no interpretation of `L`
-  (valuation / first-order structure / Kripke model obeying `L`'s frame condition) designates all
-  premises and not the conclusion.
+  STATEMENT: for every logic `L` of the package, every argument, and every tableau `t` reachable
+  from the trunk by ANY finite sequence of legal rule applications (so: every optimisation
+  option, every tie-break order, build() or a step() loop, every premise order), if all branches
+  of `t` are closed then no interpretation of `L` (valuation / first-order structure / Kripke
+  model obeying `L`'s frame condition) designates all premises and not the conclusion.
 
-  PROVED HERE: exactly that, for derivations that use the operator, modal, closure, frame,
-  identity and quit-flag steps — i.e. with the quantifier rules taken out of the rule table
-  (`noQuantPart`) — and only rules that pass the regenerated soundness side-check (`soundPart`;
-  for every logic except the Bochvar family that is the whole table).  The quantifier layer
-  (substitution lemma) is the missing piece; the statement below is therefore named `_partial`.
-  Semantics: the DOCUMENTED tables (`L.sem`, Ptx/Sem/Spec.lean), not the code's own.
+  PROVED HERE in that generality: operator, quantifier (new-constant, each-constant and
+  witness-free rules, through the substitution lemma and value profiles), modal, closure, frame,
+  identity-substitution, identity/existence-closure and quit-flag steps.  Two honest edges:
+    * only rules that pass the regenerated soundness side-check are in the calculus the theorem
+      talks about (`soundPart`); for every logic except the Bochvar and FDE families that is the
+      whole table (`C01_valid_sound_all_rules`), for those families the four resp. two
+      biconditional rules are excluded (known findings with concrete countermodels);
+    * a quantifier step is legal in the model only on a compound whose body does not re-bind its
+      variable and contains nothing the logic leaves uninterpreted (`Sent.quantOK`) — what every
+      sentence accepted by the parsers satisfies.
+  Semantics: the DOCUMENTED tables (`L.sem`, Ptx/Sem/Spec.lean); classical Identity = identity.
 -/
 import Ptx.Proofs.Restrict
 namespace Ptx.Props.C01
 open Ptx
 
 /-- Soundness of a closed tableau, for every legal derivation. -/
-theorem C01_valid_sound_partial (L : LogicData) (hcore : L.soundCoreB = true)
+theorem C01_valid_sound (L : LogicData) (hcore : L.soundCoreB = true)
     (arg : Argument) (t : Tableau)
-    (hd : Deriv L.soundPart.noQuantPart (trunk L arg) t)
+    (hd : Deriv L.soundPart (trunk L arg) t)
     (hclosed : t.allClosed = true)
     (M : Struct) (hM : M.Interp L) (e : Env M.D) (w0 : M.W) :
     ¬ Countermodel L M e w0 arg := by
   intro hc
-  obtain ⟨hOK, hnq⟩ := L.soundOK_of_core hcore
-  have hM' : M.Interp L.soundPart.noQuantPart := ⟨hM.vals, hM.frame, hM.classical⟩
-  have hc' : Countermodel L.soundPart.noQuantPart M e w0 arg := by
+  have hOK := L.soundOK_of_core hcore
+  have hM' : M.Interp L.soundPart := ⟨hM.vals, hM.frame, hM.classical⟩
+  have hc' : Countermodel L.soundPart M e w0 arg := by
     unfold Countermodel at hc ⊢
-    unfold LogicData.noQuantPart LogicData.soundPart
+    unfold LogicData.soundPart
     simp only [eval_restrict]
     exact hc
-  have h0 : SatT L.soundPart.noQuantPart M (trunk L.soundPart.noQuantPart arg) := trunk_sat hOK hM' arg e w0 hc'
-  have h1 := deriv_sound hOK hnq hM' hd h0
-  exact not_satT_of_allClosed hclosed h1
+  have h0 : SatT L.soundPart M (trunk L.soundPart arg) := trunk_sat hOK hM' arg e w0 hc'
+  exact not_satT_of_allClosed hclosed (deriv_sound hOK hM' hd h0)
 
-/-- With an empty unsound set no rule is excluded (other than the quantifier rules). -/
-theorem C01_valid_sound_partial_all_rules (L : LogicData) (hcore : L.soundCoreB = true)
+/-- With an empty unsound set no rule is excluded. -/
+theorem C01_valid_sound_all_rules (L : LogicData) (hcore : L.soundCoreB = true)
     (hu : L.unsoundRules = [])
     (arg : Argument) (t : Tableau)
-    (hd : Deriv L.noQuantPart (trunk L arg) t)
+    (hd : Deriv L (trunk L arg) t)
     (hclosed : t.allClosed = true)
     (M : Struct) (hM : M.Interp L) (e : Env M.D) (w0 : M.W) :
     ¬ Countermodel L M e w0 arg := by
   intro hc
-  obtain ⟨hOK, hnq⟩ := L.soundOK_of_core_nil hcore hu
-  have hM' : M.Interp L.noQuantPart := ⟨hM.vals, hM.frame, hM.classical⟩
-  have hc' : Countermodel L.noQuantPart M e w0 arg := by
-    unfold Countermodel at hc ⊢
-    unfold LogicData.noQuantPart
-    simp only [eval_restrict]
-    exact hc
-  have h0 : SatT L.noQuantPart M (trunk L.noQuantPart arg) := trunk_sat hOK hM' arg e w0 hc'
-  exact not_satT_of_allClosed hclosed (deriv_sound hOK hnq hM' hd h0)
+  have hOK := L.soundOK_of_core_nil hcore hu
+  exact not_satT_of_allClosed hclosed (deriv_sound hOK hM hd (trunk_sat hOK hM arg e w0 hc))
 
 /-- Every single legal step preserves satisfiability (the invariant of the induction). -/
 theorem C01_step_preserves (L : LogicData) (hcore : L.soundCoreB = true) (M : Struct)
-    (hM : M.Interp L.soundPart.noQuantPart) (t t' : Tableau) (s : Step)
-    (hs : applyStep L.soundPart.noQuantPart t s = some t') :
-    SatT L.soundPart.noQuantPart M t → SatT L.soundPart.noQuantPart M t' :=
-  step_sound (L.soundOK_of_core hcore).1 (L.soundOK_of_core hcore).2 hM s hs
+    (hM : M.Interp L.soundPart) (t t' : Tableau) (s : Step)
+    (hs : applyStep L.soundPart t s = some t') :
+    SatT L.soundPart M t → SatT L.soundPart M t' :=
+  step_sound (L.soundOK_of_core hcore) hM s hs
+
+/-- non-vacuity of the structure side: the one-world, one-element structure giving every atom the
+    value `v` is an interpretation of any frameless logic whose values contain `v`. -/
+example (L : LogicData) (v : V) (hv : v ∈ L.T.vals) (hf : L.frame = .none)
+    (hcl : L.closesSelfIdNeg = false ∧ L.closesNonExist = false) :
+    Struct.Interp { W := Unit, D := Unit, R := fun _ _ => True, dflt := (), atomV := fun _ _ _ => v,
+                    predV := fun _ _ _ => v, opaqueV := fun _ _ => v } L :=
+  ⟨⟨fun _ _ _ => hv, fun _ _ _ => hv, fun _ _ => hv⟩, by simp [hf, Struct.FrameOK], by
+    intro h; rcases h with h | h <;> simp [hcl.1, hcl.2] at h⟩
 
 end Ptx.Props.C01
